@@ -116,6 +116,11 @@ def run(P: Program, R: Report, tier: str) -> None:
                     continue
                 n_sites += 1
                 ok = fn.qname in allowed_roles or fn.qname in facade or fn.short in LEGACY_EMITTERS
+                if not ok and fn.cls is not None and P.is_subclass(fn.cls.qname, "Tracks"):
+                    # a private helper of the facade: every call site is inside a facade method
+                    callers = [g for g in P.functions.values() if g is not fn and any(
+                        isinstance(c, ast.Call) and call_name(c) == fn.name and isinstance(c.func, ast.Attribute) for c in ast.walk(g.node))]
+                    ok = bool(callers) and all(g.qname in facade for g in callers)
                 R.check(ok, "R20.2", fn, n, f"emit site in {fn.short} is an allowed emitter",
                         "only user-action constructors, the undo/redo facade and the listed legacy "
                         "controller method may emit the refresh signal",
